@@ -1,6 +1,7 @@
 package rules
 
 import (
+	"strings"
 	"fmt"
 	"go/token"
 	"go/types"
@@ -311,6 +312,31 @@ func runC10(c *core.Ctx) {
 					escapes = true
 				}
 			}
+			if escapes && mc.Referrers() != nil {
+				// a callback handed only to standard-library functions that call it before they return
+				// (slices.ContainsFunc, sort.Slice, strings.IndexFunc, …) does not outlive the iteration
+				syncOnly := len(*mc.Referrers()) > 0
+				for _, r := range *mc.Referrers() {
+					call, isC := r.(*ssa.Call)
+					if !isC {
+						syncOnly = false
+						continue
+					}
+					name := core.StdCallee(&call.Call)
+					ok := false
+					for _, pre := range []string{"slices.", "sort.", "strings.", "bytes.", "maps."} {
+						if strings.HasPrefix(name, pre) {
+							ok = true
+						}
+					}
+					if !ok || call.Call.Value == ssa.Value(mc) {
+						syncOnly = false
+					}
+				}
+				if syncOnly {
+					escapes = false
+				}
+			}
 			for _, b := range mc.Bindings {
 				a, isAlloc := b.(*ssa.Alloc)
 				if !isAlloc {
@@ -603,6 +629,10 @@ func c10removal(p *core.Prog, u *ssa.Function) (bool, string) {
 		call, ok := core.Resolve(idx).(*ssa.Call)
 		if !ok {
 			return false
+		}
+		// the standard search: slices.Index(list, v) is the first i with list[i] == v, or -1 (trusted model)
+		if core.StdCallee(&call.Call) == "slices.Index" && len(call.Call.Args) == 2 && core.Path(call.Call.Args[0]) == core.Path(pre.X) {
+			return true
 		}
 		h := core.Callee(&call.Call)
 		if h == nil || !p.InRepo(h) || len(h.Blocks) == 0 {
